@@ -243,9 +243,8 @@ except Exception as e:
 CL = [{'f_min': 191.3e12, 'f_max': 196.0e12, 'spacing': 50e9}, {'f_min': 186.6e12, 'f_max': 190.0e12, 'spacing': 50e9}]
 for name in (['line2', 'ring3'] if a.tier == 'quick' else ['line2', 'line3', 'ring3', 'mesh4']):
     sites, links = TOPOLOGIES[name]
-    # (a 130 km link, split into two 65 km spans, is left out: the shipped multiband library then picks band amplifiers of
-    #  different multiband groups and refuses the design with a ConfigurationError - a library matter, see DESIGN.md O2)
-    for sp in ([80], [20, 80]):
+    # (130 km: the link on which the shipped multiband library used to be refused with 'amps do not belong to the same amp type', F37)
+    for sp in ([80], [20, 80], [130]):
         cases += 1
         key = f'{name}:{sp}:multiband'
         try:
